@@ -102,7 +102,7 @@ CHECKS = {
  "C19": dict(
    technique="explicit-state BFS over the real bandit (unfitted states included); per state: copy methods x continuations enumerated exhaustively, original vs copy differential oracle, plus restore in a fresh interpreter with another hash seed",
    text="Every state reachable within the bound is deep-copied, pickled with protocols 2..5 and restored (protocol 4 also in a fresh interpreter); every continuation up to the continuation depth must give identical outputs on original and copy, and training/querying the copy must leave the original unchanged.",
-   note="BFS depth 2/3, continuation depth 1/2; quick tier uses deepcopy, protocol 5 and the fresh-interpreter protocol-4 restore; binarizers are module-level functions",
+   note="BFS depth 2 (quick) / 3 (thorough, int labels), continuation depth 1; the original is rebuilt from its history for every comparison and never copied; quick tier uses deepcopy, protocol 5 and the fresh-interpreter protocol-4 restore; binarizers are module-level functions",
    ref="DESIGN.md section 7 (C19)"),
 }
 NOT_APPLICABLE = []
